@@ -152,18 +152,42 @@ def run_averager(cfg, program, strategy, seed=0, tid=1):
     envctl.SeededUrandom(seed).install()
     d = envctl.scratch('avg')
     interpose.install(None, d)
-    base = diskcache.Cache(d, timeout=0)
-    shared = diskcache.Cache(d, timeout=0) if cfg.get('shared') else None
-    KEY = 'latency'
+    nsh = cfg.get('fanout', 0)          # > 0: the Averager lives in a FanoutCache with that many shards
+    mk = (lambda: diskcache.FanoutCache(d, shards=nsh, timeout=0)) if nsh else (lambda: diskcache.Cache(d, timeout=0))
+    base = mk()
+    shared = mk() if cfg.get('shared') else None
+    KEY = cfg.get('key', 'latency')
+    disk0 = base.disk if not nsh else base._shards[0].disk
+    dbs = [os.path.join(d, '%03d' % i, 'cache.db') for i in range(nsh)] if nsh else [os.path.join(d, 'cache.db')]
+
+    def read_pair(execute):
+        rows = execute('SELECT mode, filename, value FROM Cache WHERE key = ? AND raw = 1', (KEY,)).fetchall()
+        if not rows:
+            return None
+        mode, filename, value = rows[0]
+        total, count = disk0.fetch(mode, filename, value, False)
+        return [int(total), count] if float(total) == int(total) else [-1, count]
+
+    owner = dbs[0]
+    if nsh:
+        # which shard holds the key (observed, not computed)
+        base.set(KEY, (0.0, 0))
+        for path in dbs:
+            rc = interpose.real_connect(path, timeout=5, isolation_level=None)
+            try:
+                if rc.execute('SELECT COUNT(*) FROM Cache WHERE key = ? AND raw = 1', (KEY,)).fetchall()[0][0]:
+                    owner = path
+            finally:
+                rc.close()
+        base.delete(KEY)
 
     def snap(conn):
+        # through the committing connection (sees its own uncommitted change); a commit on another shard of the
+        # FanoutCache says nothing about the pair
+        if nsh and getattr(conn, '_verif_path', None) != owner:
+            return {'tc': [-9, -9]}
         raw = conn.raw if hasattr(conn, 'raw') else conn.execute
-        rows = raw('SELECT mode, filename, value FROM Cache WHERE key = ? AND raw = 1', (KEY,)).fetchall()
-        if not rows:
-            return {'tc': [0, 0]}
-        mode, filename, value = rows[0]
-        total, count = base.disk.fetch(mode, filename, value, False)
-        return {'tc': [int(total), count] if float(total) == int(total) else [-1, count]}
+        return {'tc': read_pair(raw) or [0, 0]}
     sch = sched.Scheduler(d, snap, strategy, busy_budget=2)
     caches = {}
 
@@ -201,9 +225,9 @@ def run_averager(cfg, program, strategy, seed=0, tid=1):
                         sch.emit({'ev': 'ret', 'c': cid, 'ret': R(type(exc).__name__)})
             return body
         for cid, ops in sorted(program.items()):
-            cache = shared if shared is not None else diskcache.Cache(d, timeout=0)
+            cache = shared if shared is not None else mk()
             caches[cid] = cache
-            sch.add_client(cid, client(cid, ops), warmup=cache.__enter__)
+            sch.add_client(cid, client(cid, ops), warmup=(cache.__enter__ if not nsh else (lambda cc=cache: len(cc))))
         events = sch.run()
         ev = []
         for e in events:
@@ -211,7 +235,9 @@ def run_averager(cfg, program, strategy, seed=0, tid=1):
                 ev.append({k: e[k] for k in ('ev', 'c', 'op', 'v', 'ret') if k in e})
             elif e['ev'] in ('commit', 'awrite'):
                 ev.append({'ev': 'commit', 'c': e['c'], 'tc': e['tc']})
-        ev.append({'ev': 'final', 'c': 0, 'tc': snap(base._con)['tc']})
+        fin = interpose.real_connect(owner, timeout=5, isolation_level=None)
+        ev.append({'ev': 'final', 'c': 0, 'tc': read_pair(fin.execute) or [0, 0]})
+        fin.close()
         return {'id': tid, 'kind': 'avg', 'nc': max(program), 'cfg': cfg, 'program': {k: [list(o) for o in v] for k, v in program.items()},
                 'schedule': list(sch.choices), 'ev': ev}
     finally:
